@@ -12,11 +12,12 @@ import FeVerif.Driver.Align
 import FeVerif.Driver.Numpy
 import FeVerif.Driver.C02
 import FeVerif.Driver.Rtcm
+import FeVerif.Driver.Crc
 
 namespace FeVerif
 
 def dispatchers : List (String → List String → Option String) :=
-  [dispatchFrame, dispatchIndexer, dispatchFileIndex, dispatchReader, dispatchAngle, dispatchDataVersion, dispatchAlign, dispatchNumpy, dispatchC02, dispatchRtcm]
+  [dispatchFrame, dispatchIndexer, dispatchFileIndex, dispatchReader, dispatchAngle, dispatchDataVersion, dispatchAlign, dispatchNumpy, dispatchC02, dispatchRtcm, dispatchCrc]
 
 def dispatch (line : String) : String :=
   match line.splitOn " " with
